@@ -134,6 +134,11 @@ def impl_init():
                 spec["payload"] = "474554202f20485454502f312e300d0a0d0a"          # data after the TCP header
             pkts.append(U.scapy_from_spec(spec))
             pkts.append(constructed(spec))
+        from scapy.layers.l2 import Dot1Q, Ether
+        for j in range(1, len(pkts), 4):
+            # every other constructed packet sits in a frame the caller built (Ether / 802.1Q)
+            pkts[j] = (Ether(src="02:00:00:00:00:01", dst="02:00:00:00:00:02") / Dot1Q(vlan=5) / pkts[j]) if j % 8 == 1 else (Ether(src="02:00:00:00:00:01", dst="02:00:00:00:00:02") / pkts[j])
+        framed = {j for j, p in enumerate(pkts) if p.name not in ("IP", "IPv6")}
         bufs = []
         for h in c["payloads"]:
             raw = bytes.fromhex(h)
@@ -145,6 +150,7 @@ def impl_init():
             bufs += [raw, bytearray(raw), rb, rb2]
         path = os.path.join(work, "c12-%d.fp" % os.getpid())
         problems = []
+        kept_results = []
         last_sig = None
         for k, o in enumerate(c["ops"]):
             before_p = [snap_pkt(p) for p in pkts]
@@ -168,14 +174,28 @@ def impl_init():
                         last_sig = TCPPacketSignature.from_packet(parse_packet(pkts[j]))
                     fingerprint_uptime(pkts[j], last_sig, options=Options(database=db))
                 elif o["op"] == "http":
-                    fingerprint_http(bufs[o["payload"] * 4 + R.randrange(4)], options=Options(database=db))
+                    hb = bufs[o["payload"] * 4 + R.randrange(4)]
+                    try:
+                        kept_results.append(fingerprint_http(hb, options=Options(database=db)))      # the caller keeps the result ...
+                    finally:
+                        if isinstance(hb, bytearray):
+                            # ... and goes on using its buffer: it can still be resized (nothing holds an export of it) and is put back as it was
+                            try:
+                                hb.append(0)
+                                hb.pop()
+                            except BufferError as e:
+                                problems.append("op %d %s: the caller's bytearray can no longer be resized after fingerprint_http (%s)" % (k, o, e))
                 elif o["op"] == "imp_tcp":
                     j = o["pkt"] * 2 + R.randrange(2)
+                    given = pkts[j]
+                    if j in framed and R.random() < 0.5:
+                        # the IP part of the caller's FRAME is handed over (frame[IP]): the frame around it is the caller's too
+                        given = pkts[j].getlayer("IP") or pkts[j].getlayer("IPv6") or pkts[j]
                     if R.random() < 0.5:
-                        res = impersonate_tcp(pkts[j], raw_label=o["label"], extra_hops=o["extra_hops"], database=db, uptime=R.choice([None, 1234]))
+                        res = impersonate_tcp(given, raw_label=o["label"], extra_hops=o["extra_hops"], database=db, uptime=R.choice([None, 1234]))
                     else:
-                        res = impersonate_tcp(pkts[j], raw_signature=R.choice(c["sigs"]), extra_hops=o["extra_hops"], database=db)
-                    if res is pkts[j]:
+                        res = impersonate_tcp(given, raw_signature=R.choice(c["sigs"]), extra_hops=o["extra_hops"], database=db)
+                    if res is pkts[j] or res is given:
                         problems.append("op %d %s: impersonate_tcp returned its input object" % (k, o))
                     elif layer_ids(res) & layer_ids(pkts[j]):
                         problems.append("op %d %s: the packet returned by impersonate_tcp shares a layer object with its input (not a new packet)" % (k, o))
